@@ -80,11 +80,11 @@ def main(tier='quick', nshards=16, seed=0):
             missing.append(('version-boundary', v))
     # histories: every type has an edit, a chain-tour and a pair history; the long strings / vectors exist
     for k in T.NAMES:
-        for t in ('hist:edit:', 'hist:chains:', 'hist:pair:'):
+        for t in ('hist:edit:', 'hist:chains:', 'hist:pair:', 'hist:observers:'):
             n_exp += 1
             if not tags.get(t + k):
                 missing.append(('history', t + k))
-    for t in ['hist:stream', 'frame:alert-long'] + (['frame:inv-65536'] if big else []):
+    for t in ['hist:stream', 'hist:after-raise', 'hist:D24', 'hist:D25:addr', 'frame:alert-long'] + (['frame:inv-65536'] if big else []):
         n_exp += 1
         if not tags.get(t):
             missing.append(('tag', t))
